@@ -1,6 +1,8 @@
 #!/bin/sh
 # Runs the repository's baseline test suite with the verif guard OFF and compares with BASELINE.json.
 export GOFLAGS=-mod=mod GOPROXY=off GOSUMDB=off GOTOOLCHAIN=local GOMAXPROCS=8
+# TestWriterLegacyCommand (in the pinned baseline) needs the reference `lz4` command on PATH; it is installed under miniconda
+command -v lz4 >/dev/null 2>&1 || PATH=$PATH:/root/miniconda/bin
 cd /repo && go test -json -vet=off -count=1 -timeout 25m ./... > /tmp/verif-baseline.$$.json
 python3 - /tmp/verif-baseline.$$.json <<'PY'
 import json, sys
